@@ -48,7 +48,13 @@ def gen_join_scenario(rng, variant, tier, style=None, stop=False):
         inacc = rng.choice([0, 1, 10, 25, 33, 34, 50, 51, 100])
         if v1:
             inacc = rng.choice([0, 25, 34, 50, 51, 100])
+    if rng.random() < 0.04:
+        # the malformed stream: constructor arguments that must be rejected (or just accepted) -- compared with the model
+        T = rng.choice([1, 3, 99, 100, 9_999_999, 10_000_000, 39_999_999, 40_000_000, 1_000_000_000])
+        inacc = rng.choice([0, 1, 25, 50, 100, 101, 150, 1000])
     ivl, div = interval_of(T, inacc, v1)
+    if ivl is None:
+        style = "ctor-error"
     icap = rng.choice([0, 0, 1, 2, J, 2 * J])
     n = rng.choice([0, 1, 2, 3, 5, 8, 13, 21])
     Tm = max(T, 40 * unit)
